@@ -200,6 +200,8 @@ def run(ctx) -> None:
     ctx.check(all(x < y for x, y in zip(Tt, Tt[1:])), 'G4', 'GeoPHIRESUtils/_T/strictly-increasing', f'{mi.rel}:{tabs["_T"][1]}', 'temperature table is not strictly increasing')
     ctx.check(all(0 <= x <= 1 for x in Ue), 'G4', 'GeoPHIRESUtils/_UtilEff/in-unit-interval', f'{mi.rel}:{tabs["_UtilEff"][1]}',
               f'utilisation efficiencies outside [0, 1]: {[x for x in Ue if not 0 <= x <= 1][:3]}')
+    from rules.helper_contract import run_shared
+    run_shared(ctx, 'G9', 'G10', 3)
     ctx.undecided('available <= stored heat (needs the sign of CoolProp entropy/enthalpy differences)', 'results for inputs in other units (C06)',
                   'CoolProp property values')
     ctx.assume('water-property helpers depend only on temperature and pressure (degree 0 in area and thickness)')
